@@ -100,9 +100,21 @@ def make_model(rng, big=False):
             else:
                 M.set_reverse_mapping({i: v for v, i in pairs_})
             preset = True
+    earlier_life = False
+    if not preset and not big and rng.random() < 0.12:
+        # the object had an earlier life over other labels, then clear(): its bookkeeping starts afresh (no refresh() afterwards)
+        for i_ in range(rng.randint(1, 4)):
+            M[tuple("old%d" % j_ for j_ in range(i_, i_ + rng.randint(1, 3)))] += 2
+        if rng.random() < 0.3:
+            M *= 0
+            M.clear()
+        else:
+            M.clear()
+        earlier_life = True
     for k, v in terms.items():
         M[k] += v
     make_model.last_preset = preset
+    make_model.last_history = "earlier-life-then-clear" if earlier_life else None
     if preset:
         if M.num_binary_variables == 0:
             raise Expected()
@@ -112,9 +124,30 @@ def make_model(rng, big=False):
         # a model that carries a constraint (ancilla labels '__a*' become ordinary variables)
         P = {(rng.choice(labs),): 1, (rng.choice(labs),): 1, (): -1}
         getattr(M, "add_constraint_%s_zero" % rng.choice(["le", "eq", "ge"]))(P, lam=rng.choice([1, 2]))
-    M.refresh()
+    if not earlier_life or len(ref.from_raw(L.kind_of(T), dict(M)).vars()) != M.num_binary_variables:
+        M.refresh()
     if M.num_binary_variables == 0:
         raise Expected()
+    if not big and rng.random() < 0.12:
+        # siblings derived from one ancestor by copy()/constructor/sum, each growing by a variable of its own; the first
+        # copy is the one that is converted (bookkeeping after plain additions is exact: no refresh())
+        how_ = rng.choice(["copy", "ctor", "add-empty"])
+        mk_ = {"copy": lambda: M0_.copy(), "ctor": lambda: type(M0_)(M0_), "add-empty": lambda: M0_ + {}}[how_]
+        M0_ = M
+        l0_ = labs[0]
+        n1_, n2_, n3_ = [("nv%d" % i_) if isinstance(l0_, str) else (("nv", i_) if isinstance(l0_, tuple) else
+                                                                   ((1000.5 + i_) if isinstance(l0_, float) else 1000 + i_)) for i_ in (1, 2, 3)]
+        try:
+            first_ = mk_()
+            first_[(n1_,)] += 3
+            M0_[(n2_,)] += -2
+            second_ = mk_()
+            second_[(n3_,)] += 5
+            if how_ != "ctor" or cname not in ("PCBO", "PCSO"):
+                M = first_
+                make_model.last_history = "sibling-of-a-common-ancestor:" + how_
+        except KeyError:
+            pass
     permuted = False
     if rng.random() < 0.2:
         # a conversion on the same object before the relabelling below: nothing of it may be remembered
@@ -250,6 +283,8 @@ def case(ctx, rng, idx):
     cname, M, permuted = make_model(rng, big)
     if make_model.last_preset:
         ctx.cat("mapping-preset-before-terms")
+    if getattr(make_model, "last_history", None):
+        ctx.cat("history:" + make_model.last_history)
     ok = check_once(ctx, rng, cname, M, permuted, big)
     if ok and not big and rng.random() < 0.3:
         # second look: the same object is edited in place and converted again -- nothing of the first conversion may linger
